@@ -110,6 +110,9 @@ func genProps(rng *Rng, bigInts bool) string {
 
 func genKinds(rng *Rng, pool []string) []string {
 	n := Pick(rng, []int{0, 1, 1, 1, 2, 3})
+	if n > len(pool) {
+		n = len(pool)
+	}
 	set := map[string]struct{}{}
 	var out []string
 	for len(out) < n {
@@ -214,7 +217,7 @@ func sizesAround(counts ...int) []int {
 func (s c18Suite) Gen(rng *Rng, tier string, w *bufio.Writer, stats *Stats) {
 	nDB, perDB := 36, 14
 	if tier == "thorough" {
-		nDB, perDB = 500, 40
+		nDB, perDB = 300, 20
 	}
 	caseNo := 0
 	for d := 0; d < nDB; d++ {
